@@ -297,13 +297,16 @@ func (r *intraProxyStreamReceiver) recvReplicationMessages() error {
 			st.UpdateStreamReplicationMessages(r.streamID, exclusiveHighWatermark)
 			st.UpdateStream(r.streamID)
 
-			// Track last watermark for late-registering shards
-			r.lastWatermarkMu.Lock()
-			r.lastWatermark = &replicationv1.WorkflowReplicationMessages{
-				ExclusiveHighWatermark: exclusiveHighWatermark,
-				Priority:               priority,
+			// Track last watermark for late-registering shards. Only watermark-only batches qualify: the tasks
+			// of a task batch may still be waiting for their target shard, which must not be told they were sent
+			if len(msgs.Messages.ReplicationTasks) == 0 {
+				r.lastWatermarkMu.Lock()
+				r.lastWatermark = &replicationv1.WorkflowReplicationMessages{
+					ExclusiveHighWatermark: exclusiveHighWatermark,
+					Priority:               priority,
+				}
+				r.lastWatermarkMu.Unlock()
 			}
-			r.lastWatermarkMu.Unlock()
 
 			r.logger.Debug(fmt.Sprintf("Receiver received ReplicationTasks: exclusive_high=%d ids=%v", exclusiveHighWatermark, ids))
 
